@@ -5,6 +5,7 @@ Numbers are exact rationals (`Rat`): integers, decimals and the results of `/` a
 `ts` is a timestamp/date in seconds since the epoch.
 -/
 import SideVerif.Layer.Calendar
+import SideVerif.Layer.Str
 namespace SideVerif.Sql
 
 inductive Val where
